@@ -259,8 +259,14 @@ def enum_scope(pid, tier, seed, wd, bins, out):
         for h in small:
             cs = calls(h)
             if len(cs) > 260: continue
+            _, dead_h = usable(h)
+            def uses_dead(c):
+                return any(t.isdigit() and int(t) in dead_h for t in c.split()[1:3]) and not c.startswith(("new", "appv %s" % "x"))
             for c1 in cs:
                 for c2 in cs:
+                    # an allocation may recycle the slot of a removed id, which makes that id stale: after
+                    # new_node / append_value the second call may only name live ids
+                    if c1.startswith(("new ", "appv ")) and any(t.isdigit() and int(t) in dead_h for t in c2.split()[1:(2 if c2.startswith("appv") else 3)]): continue
                     # the second call must be valid after the first: a removal may kill ids, and
                     # detach/remove/remove_subtree require a live id — after a removal keep only the
                     # calls that accept removed ids (the eight inserts, append_value, new_node)
